@@ -1,11 +1,26 @@
+#[cfg(not(noodles_verif))]
 use std::{
     io::{self, BufRead, Read, Seek, SeekFrom},
     mem,
     num::NonZero,
     thread::{self, JoinHandle},
 };
+#[cfg(noodles_verif)]
+use std::{
+    io::{self, BufRead, Read, Seek, SeekFrom},
+    mem,
+    num::NonZero,
+};
 
+#[cfg(not(noodles_verif))]
 use crossbeam_channel::{Receiver, Sender};
+
+#[cfg(noodles_verif)]
+use crate::verif::{
+    crossbeam_channel::{self, Receiver, Sender},
+    rayon,
+    thread::{self, JoinHandle},
+};
 
 use super::Block;
 use crate::{VirtualPosition, gzi};
@@ -369,6 +384,8 @@ where
             let (buffered_tx, buffered_rx) = crossbeam_channel::bounded(1);
 
             rayon::spawn(move || {
+                #[cfg(noodles_verif)]
+                crate::verif::gate("inflate");
                 let result = parse_block(&buffer.buf, &mut buffer.block).map(|_| buffer);
                 let _ = buffered_tx.send(result);
             });
